@@ -82,6 +82,7 @@ COUNTS = {}
 RAISED = {}
 COVER = {"ops": {}, "trav_combos": set(), "skipped_type_predicate": 0, "nodes_max": 0}
 T0 = time.time()
+C0 = time.thread_time()  # budgets in CPU seconds of this thread (independent of machine load)
 BUDGET = 1050 if THOROUGH else 75
 
 
@@ -1201,7 +1202,7 @@ def mini_enumeration(maxlen):
         return out
 
     def rec(prefix):
-        if time.time() - T0 > BUDGET:
+        if time.thread_time() - C0 > BUDGET:
             COVER["time_budget_hit"] = True
             return
         if prefix and prefix[-1][0] == "deepcopy" and sum(1 for o in prefix if o[0] == "deepcopy") > 1:
@@ -1234,7 +1235,7 @@ PLAN = {  # (tree kind, mode) -> number of sequences
 }["thorough" if THOROUGH else "quick"]
 for kind in ("generic", "block", "assembly", "core"):
     for s in range(PLAN[kind]):
-        if time.time() - T0 > BUDGET:
+        if time.thread_time() - C0 > BUDGET:
             COVER["time_budget_hit"] = True
             break
         run_sequence(kind, B.rng.randrange(1 << 30), "wellformed", 2 + (s % (LMAX - 1)))
